@@ -38,7 +38,8 @@
 //!          predicate of theorem `index_only_after_write` evaluated on the recorded log.
 //!  * `order <variant> <seed>`      oracle only: real commands (variant backup | prune | copy: histories on small packs;
 //!       tiny: the packer pipeline on > 50,000 tiny blobs, so that the `Indexer` saves an index file on its own;
-//!       tinyfail / backupfail: the same with one failing backend write); the recorded `MemBackend` log must show, before
+//!       tinyfail / backupfail: the same with one failing backend write; bigbackup (thorough): a real backup of one file of
+//!       > 50,000 distinct 32-byte chunks, odd seeds with one failing write); the recorded `MemBackend` log must show, before
 //!       every index file write, a successful write of every pack the file lists, with the listed size
 //!       (`oracle-fail:index-before-pack`), and at the end every listed pack must exist (`oracle-fail:indexed-pack-missing`).
 use std::collections::{BTreeMap, BTreeSet};
@@ -485,7 +486,7 @@ pub fn generate(thorough: bool, rng: &mut Rng, ops: &mut Vec<String>, stats: &mu
     }
     // --- order of pack and index writes in recorded logs of real commands
     let ov: &[(&str, usize, usize)] =
-        &[("backup", 2, 10), ("prune", 2, 10), ("copy", 1, 5), ("tiny", 1, 4), ("tinyfail", 2, 14), ("backupfail", 4, 30)];
+        &[("backup", 2, 10), ("prune", 2, 10), ("copy", 1, 5), ("tiny", 1, 4), ("tinyfail", 2, 14), ("backupfail", 4, 30), ("bigbackup", 2, 6)];
     for (v, q, t) in ov {
         for _ in 0..(if thorough { *t } else { *q }) {
             stats.hit(format!("order.{v}"));
@@ -1551,6 +1552,63 @@ fn exec_order(variant: &str, seed: u64) -> String {
             }
             "ok".into()
         }
+        "bigbackup" => {
+            // a real backup whose data packer hands more than `indexer::constants::MAX_COUNT` blobs to the indexer: one file of
+            // > 50,000 distinct 32-byte chunks (fixed-size chunker); odd seeds: one backend write fails
+            let cfg = ConfigOptions::default()
+                .set_chunker(rustic_core::repofile::Chunker::FixedSize)
+                .set_chunk_size(bytesize::ByteSize(32))
+                .set_compression(0);
+            let (h, _repo) = match RepoHandle::init_nocache(MemBackend::new(), None, &cfg) {
+                Ok(x) => x,
+                Err(e) => return errkind(&e),
+            };
+            let n = 50_100 + rng.below(4_000);
+            let mut content = Vec::with_capacity(n as usize * 32);
+            for k in 0..n {
+                let mut block = [0u8; 32];
+                block[..8].copy_from_slice(&k.to_le_bytes());
+                block[8..16].copy_from_slice(&seed.to_le_bytes());
+                content.extend_from_slice(&block);
+            }
+            let src = MemSource::new(vec![SrcEntry::file(&[b"big"], &content), SrcEntry::file(&[b"small"], b"x")]);
+            let before = h.be.log().len();
+            let fail = if seed % 2 == 1 { Some(before + rng.below(8) as usize) } else { None };
+            h.be.set_fail_only(fail);
+            let snap = match SnapshotOptions::default().to_snapshot() {
+                Ok(s) => s,
+                Err(e) => return errkind(&e),
+            };
+            let res = repo::backup_nocache(&h, &src, &BackupOptions::default(), snap);
+            h.be.set_fail_only(None);
+            let failed = h.be.log().iter().any(|o| !o.applied);
+            if failed && res.is_ok() {
+                return "oracle-fail:failed-write-not-reported".into();
+            }
+            if !failed && res.is_err() {
+                return "oracle-fail:error-without-fault".into();
+            }
+            let (n_idx, _) = match order_check(&h, None) {
+                Ok(x) => x,
+                Err(e) => return e,
+            };
+            if let Err(e) = listed_packs_exist(&h) {
+                return e;
+            }
+            if let Ok(s) = res {
+                if n_idx < 2 {
+                    return "oracle-fail:no-index-auto-save".into();
+                }
+                let sc = Scenario { h, snaps: vec![(s, expected_with_root(&src))] };
+                if let Err(e) = read_all(&sc) {
+                    return e;
+                }
+                if let Err(e) = verify_packs(&sc.h) {
+                    return e;
+                }
+            }
+            "ok".into()
+        }
         "backupfail" => {
             // one backup, then a second one during which one backend write fails
             let cfg = config_for(&mut rng);
@@ -1614,7 +1672,7 @@ pub fn exec(t: &[&str]) -> String {
             }
         }
         ["order", variant, seed] => match seed.parse::<u64>() {
-            Ok(s) if ["backup", "prune", "copy", "tiny", "tinyfail", "backupfail"].contains(variant) => exec_order(variant, s),
+            Ok(s) if ["backup", "prune", "copy", "tiny", "tinyfail", "backupfail", "bigbackup"].contains(variant) => exec_order(variant, s),
             _ => "bad-op".into(),
         },
         ["repo", variant, seed] => match seed.parse::<u64>() {
